@@ -508,7 +508,9 @@ def _leaf_fp(v, netname, key):
         return (v,)
     if isinstance(v, AT):
         for a in v.axes:
-            if not isinstance(a, int):
+            if not isinstance(a, int) and not (a == 'Gt' or (a[:1] == 'G' and a[1:].isdigit())):
+                # (a value given on the GRID of a separable network is not a per-sample table: the network is called once
+                # for the whole grid)
                 raise Finding(f"per-sample parameter {key!r} reaches network {netname} with its row axis {a} not "
                               f"consumed by the vmap (row i is not paired with sample i)")
         return tuple(v.entries())
@@ -1820,6 +1822,7 @@ def make_world_externals(world_ref):
                     bool_=np.bool_),
         'math': NS("math", prod=_math_prod),
         'copy': NS("copy", deepcopy=lambda x: x, copy=lambda x: x),
+        'jax.flatten_util': NS("jax.flatten_util", ravel_pytree=lambda t: (term('ravel_pytree', *pytree.tree_leaves(t)), opaque_fn('unravel'))),
         'collections.abc': NS("collections.abc", Sequence=ExternalClass('Sequence', (list, tuple, range)), Mapping=ExternalClass('Mapping', (dict,)),
                               Iterable=ExternalClass('Iterable', (list, tuple, dict, set, frozenset, range)), Callable=ExternalClass('Callable'),
                               Hashable=ExternalClass('Hashable', (str, int, tuple, frozenset))),
